@@ -55,17 +55,39 @@ Theorem C35_distinct_refuted_before_fix :
   exists c ops, ~ NoDup (cur_addrs (active (trace_unrepaired c ops))).
 Proof. exact pool_unrepaired_not_distinct. Qed.
 
-(* NTS pool (nts_pool.rs), PARTIAL: bookkeeping only.  The TCP connection, the TLS key exchange
-   and the resolution of the server named by the key exchange are oracle outcomes per loop
-   iteration (nothing of this runs in the correspondence: model only).  Proved: never more than
-   count sources and never two sources with the same remote name (the key the code uses: the SRV
-   record name or else the server name returned by the key exchange).  NOT proved, and not
-   enforced by the code: that two different remote names do not resolve to the same socket
-   address.  The NTS pool configuration has no ignore list. *)
+(* NTS pool (nts_pool.rs), PARTIAL.  The TCP connection, the TLS key exchange and the resolution
+   of the server named by the key exchange are oracle outcomes per loop iteration of try_spawn.
+   Proved: never more than count sources and never two sources with the same remote name (the key
+   the code uses: the SRV record name or else the server name returned by the key exchange).
+   Tie (harness/ntpd/c35n.rs): the real NtsPoolSpawner against real key exchange servers on
+   loopback ports whose behaviour per connection is scripted; compared with run_nts (no SRV
+   resolution: the script is the list of oracle outcomes) and run_srv (SRV resolution: the
+   scripted queue known_resolutions determines the outcomes through the model of lookup(),
+   srv_lookup / srv_outcomes); the two theorems after this one say that these functions run the
+   very nts_exec of this theorem.
+   What is missing, hence _partial: the C35 statement speaks of server ADDRESSES; that two
+   different remote names do not resolve to the same socket address is NOT proved, and is not
+   enforced by the code: the harness observes runs of the real spawner with two current sources
+   at one socket address (the names "localhost" and "127.0.0.1"; two SRV names whose servers
+   name the same NTP server).  The NTS pool configuration has no ignore list.  Not covered by the
+   tie: the DNS / SRV lookup itself (resolve_ke) and queue entries left over from a previous
+   round (the harness replaces the queue before every round). *)
 Theorem C35_nts_pool_bounded_distinct_names_partial : forall n ops,
   let cur := ncurrent (nts_exec n ops (mkntspool [] 0)) in
   (length cur <= n)%nat /\ NoDup (map snd cur).
 Proof. exact nts_pool_safe_from_start. Qed.
+
+(* the functions the implementation is compared with end with the encoding (nts_final) of the
+   state the previous theorem speaks about: for the same history (no SRV resolution), and for the
+   history of oracle outcomes the scripted resolution queues determine (SRV resolution) *)
+Theorem C35_nts_tie_runs_the_model : forall n ops,
+  exists pre, run_nts (n, ops) = pre ++ nts_final (nts_exec n ops (mkntspool [] 0)).
+Proof. exact run_nts_final. Qed.
+
+Theorem C35_nts_srv_tie_runs_the_model : forall n ops,
+  exists pre, run_srv (n, ops)
+              = pre ++ nts_final (nts_exec n (srv_to_nts n ops (mkntspool [] 0)) (mkntspool [] 0)).
+Proof. exact run_srv_final. Qed.
 
 (* non-vacuity: count 2, ignore ip 3; answer [A;A;C(ignored);B]: sources on B then A (popped from
    the end), the second A stays in known_ips; after B is removed the next round finds that A
@@ -85,6 +107,16 @@ Example C35_nonvacuous_nts :
                      (mkntspool [] 0)) = [(0, 7); (1, 8)].
 Proof. vm_compute. reflexivity. Qed.
 
+(* SRV resolution, count 3: the second resolution (SRV name 20002) is answered by the same NTP
+   server 7 as the first: a second source (the key is the SRV name); the third resolution carries
+   the name of the first source and is skipped without using up a loop iteration; the fourth has
+   no SRV name and its answer names server 7: filed under 7; the closed port ends the queue *)
+Example C35_nonvacuous_nts_srv :
+  run_srv (3%nat, [SrvTrySpawn [(Some 20001, SbOk 7 true); (Some 20002, SbOk 7 true); (Some 20001, SbOk 8 true);
+                                (None, SbOk 7 true); (None, SbRefused)]])
+  = [3; 3; 0; 20001; 1; 20002; 2; 7; 1; 1; 3; 0; 20001; 1; 20002; 2; 7].
+Proof. vm_compute. reflexivity. Qed.
+
 Print Assumptions C35_bounded.
 Print Assumptions C35_distinct.
 Print Assumptions C35_no_ignored.
@@ -94,3 +126,5 @@ Print Assumptions C35_complete_iff.
 Print Assumptions C35_system_view.
 Print Assumptions C35_distinct_refuted_before_fix.
 Print Assumptions C35_nts_pool_bounded_distinct_names_partial.
+Print Assumptions C35_nts_tie_runs_the_model.
+Print Assumptions C35_nts_srv_tie_runs_the_model.
